@@ -337,11 +337,11 @@ PROPS['C13'] = dict(
           'holding the lock and the session being inside a bracketed statement exclude each other; C13_no_write_inside_statement; '
           'C13_all_bracketed - a `decide` over facts re-extracted from the source on every run: every Evaluate* opens with '
           'StartTxn/defer EndTxn, the log append is inside the bracket, CREATE TABLE changes pages under the shared lock, flushPages '
-          'holds the exclusive lock for its whole body, the data file is written only from flushPages, the header is read at start-up under the exclusive lock and only the store OpenRelation returns has a flusher (CreateDB, which changes pages under no lock, has none); '
+          'holds the exclusive lock for its whole body, the data file is written only from flushPages, the flusher goroutine is started in one place only, as the last step of fileStore.open after every read of the header, and only the store OpenRelation returns has a flusher (CreateDB, which changes pages under no lock, has none); '
           'C13_unbracketed_counterexample shows the hypothesis is needed. What the model cannot exhibit (Go memory model, RWMutex, '
           'scheduler) is exercised, not proved: the harness is built with -race and run against the real 100 ms timer - statements are '
           'parked inside their log append for more than three ticks while page/header writes are counted (must be 0), and a storm of '
-          'CREATE/INSERT/SELECT/UPDATE/DELETE across many ticks must leave the race detector silent; a session that opens the database and stays idle for three ticks (on an empty and on a filled file) and a CREATE DATABASE slowed past three ticks cover the start-up paths (they exposed the defect repaired in c8c2929).',
+          'CREATE/INSERT/SELECT/UPDATE/DELETE across many ticks must leave the race detector silent; a session that opens the database and stays idle for three ticks (on an empty and on a filled file), a CREATE DATABASE slowed past three ticks and an open stalled for three ticks between creating the store and reading its header cover the start-up paths (they exposed the defects repaired in c8c2929 and 34a4346).',
     note='Trusted: Lean kernel, the hand-written lock model, the extractor\'s call skeletons, sync.RWMutex, time.Ticker, the Go race '
          'detector (happens-before, independent of the timing observed). Labelled partial: thread interleavings of the real runtime are '
          'sampled, not proved.',
